@@ -133,6 +133,10 @@ func (g *gen) declStmt() Stmt {
 		g.class("stmt:let")
 		v.Init = g.expr(t, g.exprDepth())
 		v.NoType = g.chance(40, "lnotype")
+		if c, ok := v.Init.(*Construct); ok && !v.NoType && c.T != nil && c.T.K == TVec && len(c.Args) == 1 && c.Args[0].Type() != nil && c.Args[0].Type().K == TScalar && g.f.off("let.typed-splat") {
+			// finding C04-8 (MSL): the vector type of a typed let bound to a splat constructor is not resolved
+			v.NoType = true
+		}
 		if t.K != TScalar && IsRef(v.Init) && g.f.off("let.ref-snapshot") {
 			// finding C01-14: `let l = v;` of a composite is re-read from v at every later `l.x` / `l[i]`
 			v.Kind = VVar
@@ -231,19 +235,23 @@ func (g *gen) compoundAssign() Stmt {
 			rt = t.ScalarOf()
 		}
 		rhs = g.expr(rt, g.exprDepth())
-		// Known finding (tag compound-assign.rhs-call): `x op= f()` is lowered with
-		// the call before the load of x, so a callee that writes x changes the result;
-		// keep user calls out of the right side when the target is a module-scope variable.
-		if rv := RootVar(lhs); rv != nil && (rv.Kind == VStorage || rv.Kind == VPrivate || rv.Kind == VWorkgroup) {
-			hasCall := false
-			WalkExpr(rhs, func(e Expr) bool {
-				if _, ok := e.(*CallE); ok {
-					hasCall = true
-				}
-				return !hasCall
-			})
-			if hasCall && g.f.off("compound-assign.rhs-call") {
-				rhs = g.leaf(rt, 0)
+	}
+	// Known finding (tag compound-assign.rhs-call): `x op= f()` is lowered with
+	// the call before the load of x, so a callee that writes x changes the result;
+	// keep user calls out of the right side when the target is a module-scope variable.
+	if rv := RootVar(lhs); rv != nil && (rv.Kind == VStorage || rv.Kind == VPrivate || rv.Kind == VWorkgroup) {
+		hasCall := false
+		WalkExpr(rhs, func(e Expr) bool {
+			if _, ok := e.(*CallE); ok {
+				hasCall = true
+			}
+			return !hasCall
+		})
+		if hasCall && g.f.off("compound-assign.rhs-call") {
+			if op == "<<" || op == ">>" {
+				rhs = g.shiftAmount(t, 0)
+			} else {
+				rhs = g.leaf(rhs.Type(), 0)
 			}
 		}
 	}
@@ -271,7 +279,7 @@ func (g *gen) switchStmt(depth int) Stmt {
 	k := []Kind{I32, U32}[g.intn(2, "swk")]
 	sel := g.expr(Scalar(k), g.exprDepth())
 	if g.chance(60, "swmod") {
-		sel = &Binary{Op: "%", L: sel, R: &Lit{T: Scalar(k), Bits: 5}, T: Scalar(k)}
+		sel = &Binary{Op: "%", L: g.nonNegForRem(sel, Scalar(k)), R: &Lit{T: Scalar(k), Bits: 5}, T: Scalar(k)}
 	}
 	s := &Switch{Sel: sel}
 	used := map[uint32]bool{}
@@ -680,6 +688,11 @@ func GenExec(t *rapid.T, f Features) *ExecCase {
 		c.Buffers[[2]int{0, g.outAt.Binding}] = g.fillBuffer(g.outAt.T, SizeOf(g.outAt.T))
 		g.class("atomics")
 	}
+	// pipeline-overridable constants (C14)
+	if f.Overrides {
+		g.genOverrides(addGlobal)
+		c.Overrides = g.overrides
+	}
 	// module constants
 	g.push() // module scope for consts
 	for i, n := 0, g.intn(3, "nconst"); i < n; i++ {
@@ -726,6 +739,16 @@ func GenExec(t *rapid.T, f Features) *ExecCase {
 		if (g.chance(50, "privinit") || f.off("var.no-init")) && !(pt.ContainsStruct() && f.off("private.init.struct")) && !(containsBoolVec(pt) && f.off("private-init.bool-splat")) {
 			g.noNeg = f.off("private-init.unary")
 			pv.Init = g.constOf(pt)
+			if f.off("private-init.splat") {
+				// known finding (C05-14 family, MSL): a splat constructor inside a module-scope initialiser
+				// is emitted with another vector type (mat3x3(int3(0), float3(0, 0, 0), int3(0)))
+				for tries := 0; tries < 6 && hasSplatCtor(pv.Init); tries++ {
+					pv.Init = g.constOf(pt)
+				}
+				if hasSplatCtor(pv.Init) {
+					pv.Init = nil
+				}
+			}
 			g.noNeg = false
 		}
 		addGlobal(pv)
@@ -894,4 +917,115 @@ func containsBoolVec(t *Type) bool {
 		}
 	}
 	return false
+}
+
+// genOverrides declares 1-4 overrides of bool / i32 / u32 / f32 with and
+// without @id and default initialisers over literals and earlier overrides.
+func (g *gen) genOverrides(add func(*Var)) {
+	n := 1 + g.intn(4, "nov")
+	usedID := map[int]bool{}
+	for i := 0; i < n; i++ {
+		k := []Kind{Bool, I32, U32, F32}[g.intn(4, "ovk")]
+		if k == F32 && !g.f.Floats {
+			k = I32
+		}
+		v := &Var{Name: g.name("ov"), Kind: VOverride, T: Scalar(k), ID: -1}
+		if g.chance(50, "ovid") {
+			id := g.intn(20, "ovidn")
+			for usedID[id] {
+				id++
+			}
+			usedID[id] = true
+			v.ID = id
+		}
+		if g.chance(75, "ovinit") {
+			v.Init = g.overrideInit(Scalar(k), 2)
+		}
+		v.NoType = false
+		g.overrides = append(g.overrides, v)
+		add(v)
+		g.class("override:" + k.String())
+		if v.Init != nil {
+			g.class("override:with-default")
+		} else {
+			g.class("override:no-default")
+		}
+	}
+}
+
+// overrideInit builds an override-expression: literals, earlier overrides of
+// the same type and operators over them.
+func (g *gen) overrideInit(t *Type, depth int) Expr {
+	var earlier []*Var
+	for _, o := range g.overrides {
+		if o.T.Same(t) {
+			earlier = append(earlier, o)
+		}
+	}
+	if depth <= 0 || g.chance(35, "ovleaf") {
+		if len(earlier) > 0 && g.chance(50, "ovref") {
+			g.class("override:derived")
+			return &VarRef{earlier[g.intn(len(earlier), "ovrefi")]}
+		}
+		if t.S == I32 || t.S == U32 {
+			// small values keep derived arithmetic away from overflow
+			return &Lit{T: t, Bits: uint32(g.intn(16, "ovlit"))}
+		}
+		return g.litOf(t.S)
+	}
+	switch t.S {
+	case Bool:
+		if g.f.off("override.init.bool-ops") {
+			return g.litOf(Bool)
+		}
+		if g.chance(50, "ovbcmp") {
+			k := []Kind{I32, U32}[g.intn(2, "ovck")]
+			op := cmpOps[g.intn(6, "ovcmp")]
+			g.class("override-init:cmp")
+			return &Binary{Op: op, L: g.overrideInit(Scalar(k), depth-1), R: g.overrideInit(Scalar(k), depth-1), T: TBool}
+		}
+		if g.chance(30, "ovnot") {
+			g.class("override-init:!")
+			return &Unary{Op: "!", X: g.overrideInit(t, depth-1), T: t}
+		}
+		op := []string{"&&", "||"}[g.intn(2, "ovlop")]
+		g.class("override-init:" + op)
+		return &Binary{Op: op, L: g.overrideInit(t, depth-1), R: g.overrideInit(t, depth-1), T: t}
+	case F32:
+		op := []string{"+", "-", "*"}[g.intn(3, "ovfop")]
+		g.class("override-init:f32" + op)
+		return &Binary{Op: op, L: g.overrideInit(t, depth-1), R: g.overrideInit(t, depth-1), T: t}
+	}
+	ops := []string{"+", "-", "*", "/", "%", "&", "|", "^", "<<", ">>"}
+	if t.S == U32 {
+		ops = []string{"+", "*", "/", "%", "&", "|", "^", "<<", ">>"}
+	}
+	op := ops[g.intn(len(ops), "oviop")]
+	if g.f.off("override.init.op."+op) {
+		op = "+"
+	}
+	g.class("override-init:int" + op)
+	if op == "<<" || op == ">>" {
+		return &Binary{Op: op, L: g.overrideInit(t, depth-1), R: &Lit{T: TU32, Bits: uint32(g.intn(8, "ovsh"))}, T: t}
+	}
+	if op == "/" || op == "%" {
+		// non-zero literal divisor: a zero divisor in an override-expression is a pipeline-creation error
+		return &Binary{Op: op, L: g.overrideInit(t, depth-1), R: &Lit{T: t, Bits: uint32(1 + g.intn(7, "ovdiv"))}, T: t}
+	}
+	return &Binary{Op: op, L: g.overrideInit(t, depth-1), R: g.overrideInit(t, depth-1), T: t}
+}
+
+// hasSplatCtor reports whether e contains a vector constructor with a single scalar argument.
+func hasSplatCtor(e Expr) bool {
+	found := false
+	if e == nil {
+		return false
+	}
+	WalkExpr(e, func(x Expr) bool {
+		if c, ok := x.(*Construct); ok && c.T != nil && c.T.K == TVec && len(c.Args) == 1 && c.Args[0].Type() != nil && c.Args[0].Type().K == TScalar {
+			found = true
+		}
+		return !found
+	})
+	return found
 }
